@@ -29,7 +29,7 @@ CLAIMED = {
             "Sent; no order-breaking queue operation; re-arm is paired with the DUP patch and resets every retained entry "
             "to Write{0} unconditionally. These are inductive "
             "who-may-mutate facts that hold for histories of any length and every crash point because they quantify "
-            "over all call sites and paths; retransmission byte-identity and counting are not computed. The acknowledgement removal takes out exactly the entry it looked up by identifier (index provenance), its lookup does not depend on data that changes while the packet is in flight, and the entry is removed before the reason code is examined; the arena clauses of C17 are evaluated here as well. The removal function reports true exactly on the paths that removed an entry. Every successful handshake stores the broker's Maximum Packet Size itself (CONNACK value or none), so a limit of an earlier connection cannot refuse the replay. ReasonCode::success is tabulated over every variant against the 0x80 boundary.",
+            "over all call sites and paths; retransmission byte-identity and counting are not computed. The acknowledgement removal takes out exactly the entry it looked up by identifier (index provenance), its lookup does not depend on data that changes while the packet is in flight, and the entry is removed before the reason code is examined; the arena clauses of C17 are evaluated here as well. The removal function reports true exactly on the paths that removed an entry. Every successful handshake stores the broker's Maximum Packet Size itself (CONNACK value or none), so a limit of an earlier connection cannot refuse the replay. ReasonCode::success is tabulated over every variant against the 0x80 boundary. The session reset is placed on the no-session edge of an accepted CONNACK (C05's clause).",
             "DESIGN.md §4 C02"),
     "C01": ("must-dataflow (DRAINED) + table extraction/value-set folding of fixed-header flags vs MQTT 5 Table 2-2 + "
             "dominance/wiring on mir_built",
@@ -39,7 +39,7 @@ CLAIMED = {
             "packet kind the client can send or retain; replay restarts all three queues at byte 0; CONNECT is the first "
             "I/O and nothing follows a DISCONNECT without the latch; remaining-length and slice wiring; fresh/in-progress "
             "decision tables. Three genuine defects are listed as known findings. The byte stream itself is not produced "
-            "or parsed: these are necessary conditions that hold for every schedule because they quantify over all paths. Also evaluated here because the stream is only well-formed if they hold: Varint::encoded_len agrees with the varint encoder (abstract interpretation), and the arena clauses of C17 (views behind retained bytes, arena writers, compaction, offset/len wiring). The identifier allocator never yields 0 (C07's clause, evaluated here: identifier 0 is malformed). CONNECT flags, subscription options and PUBLISH flags are compared bit by bit with MQTT 5 (C09's tables).",
+            "or parsed: these are necessary conditions that hold for every schedule because they quantify over all paths. Also evaluated here because the stream is only well-formed if they hold: Varint::encoded_len agrees with the varint encoder (abstract interpretation), and the arena clauses of C17 (views behind retained bytes, arena writers, compaction, offset/len wiring). The identifier allocator never yields 0 (C07's clause, evaluated here: identifier 0 is malformed). CONNECT flags, subscription options and PUBLISH flags are compared bit by bit with MQTT 5 (C09's tables). Header QoS bits and identifier allocation use the same effective QoS (C19's rule); property-block sizes, 16-bit length prefixes and serializer field order (C09's rules); a packet accepted in part is not flushed or dropped (C13's rule).",
             "DESIGN.md §4 C01"),
     "C03": ("path-sensitive must-pass (constant-propagated path enumeration) + who-may-mutate census + wiring on mir_built",
             "Static analysis, structural clauses only: every feasible path to the PUBREL enqueue passes the success edge of "
@@ -54,14 +54,14 @@ CLAIMED = {
             "identifier was just recorded, recording only when not already pending; every non-error PUBREL path queues a "
             "PUBCOMP with the table-correct reason and forgets the identifier; acks are serialised off-arena into their own "
             "queue; the reset clears pending identifiers; the delivered message is re-decoded from exactly the consumed prefix "
-            "of the untouched receive buffer with fields passed through. Decoder correctness for arbitrary bytes is C08/C09. The session reset that forgets pending inbound identifiers is placed on the no-session edge, on every path, before the handshake can fail for another reason. Nothing in the inbound PUBLISH arm consults the client's own in-flight tables (broker and client identifiers are separate spaces). No await point lies between taking a PUBLISH out of the reader and returning it to the caller (C13's clause). A packet of exactly the advertised Maximum Packet Size fits the receive window (C14's clause).",
+            "of the untouched receive buffer with fields passed through. Decoder correctness for arbitrary bytes is C08/C09. The session reset that forgets pending inbound identifiers is placed on the no-session edge, on every path, before the handshake can fail for another reason. Nothing in the inbound PUBLISH arm consults the client's own in-flight tables (broker and client identifiers are separate spaces). No await point lies between taking a PUBLISH out of the reader and returning it to the caller (C13's clause). A packet of exactly the advertised Maximum Packet Size fits the receive window (C14's clause). The property iterator advances by exactly what each property occupied; an acknowledgement accepted in part by the transport is neither flushed nor dropped (C13's rule).",
             "DESIGN.md §4 C04"),
     "C05": ("wiring (expression reconstruction incl. closure captures) + dominance/must-pass on the handshake's mir_built",
             "Static analysis, structural clauses only: clean_start = !session_present and the client id wiring of CONNECT; "
             "session_present is set only by the handshake after reason code and all properties were accepted; the reset runs "
             "exactly on the no-session edge, before anything else in the handshake can fail, clears outbound and inbound "
             "in-flight state and bumps the generation; the ConnectEvent follows session_present; new identifiers are "
-            "allocated only after a successful drain. Broker behaviour is not modelled. The re-arm reached from Session::connect resets every entry of every queue unconditionally. The status decision compares generations before identifiers (C18's table, evaluated here). The identifier CONNECT carries may be read from several state fields (configured / assigned); each is written only at construction and by the handshake from the CONNACK's Assigned Client Identifier. Which CONNACK reason codes count as success is ReasonCode::success, tabulated over every variant against the 0x80 boundary.",
+            "allocated only after a successful drain. Broker behaviour is not modelled. The re-arm reached from Session::connect resets every entry of every queue unconditionally. The status decision compares generations before identifiers (C18's table, evaluated here). The identifier CONNECT carries may be read from several state fields (configured / assigned); each is written only at construction and by the handshake from the CONNACK's Assigned Client Identifier. Which CONNACK reason codes count as success is ReasonCode::success, tabulated over every variant against the 0x80 boundary. No removal reorders the retained or release list (C02's / C17's clause).",
             "DESIGN.md §4 C05"),
     "C06": ("who-may-write + value-shape matching + path-sensitive must-pass with correlated reason-code tests + "
             "interprocedural dependence (fields touched by the callees of the stored value) on mir_built",
@@ -76,7 +76,7 @@ CLAIMED = {
             "Static analysis, structural clauses only: identifiers are non-zero by type; every identifier-bearing header, "
             "enqueue and handle takes the allocator's result of the same operation; the allocator returns an identifier "
             "only after looking that very value up in the retained and release lists and finding it absent. With the last "
-            "clause the clause set is the property (for the in-flight sets the crate keeps). Non-zero holds by type, by a test of the value handed out, or by the invariant that every store to the counter is provably non-zero. The tables the allocator consults lose only the entry an acknowledgement names (index provenance).",
+            "clause the clause set is the property (for the in-flight sets the crate keeps). Non-zero holds by type, by a test of the value handed out, or by the invariant that every store to the counter is provably non-zero. The tables the allocator consults lose only the entry an acknowledgement names (index provenance). Header QoS bits and identifier allocation use the same effective QoS (C19's rule).",
             "DESIGN.md §4 C07"),
     "C12": ("dominance over Session::connect + store-shape of the reset functions + provenance of the CONNECT buffer",
             "Static analysis, structural clauses only: reader reset, timer reset and the unconditional re-arm of all queues "
@@ -91,7 +91,7 @@ CLAIMED = {
             "operations the byte count is committed to session state (or returned to a caller that commits it) before the "
             "next await on every path, so dropping the future at any await loses no progress; allocation..enqueue sections "
             "are await-free; enqueue precedes the first write; progress setters store what they are given. One genuine "
-            "defect (disconnect via write_all) is a known finding. Equality of cancelled and uncancelled runs is not decided. The keep-alive's already-queued test sees a PINGREQ in state Write and in state Flush (truth table of the per-entry test). Setter parameters are resolved by position (a transposed signature is seen at the call site); a flush resumed after a cancellation is booked on the entry of the same queue and identifier (C02's clause).",
+            "defect (disconnect via write_all) is a known finding. Equality of cancelled and uncancelled runs is not decided. The keep-alive's already-queued test sees a PINGREQ in state Write and in state Flush (truth table of the per-entry test). Setter parameters are resolved by position (a transposed signature is seen at the call site); a flush resumed after a cancellation is booked on the entry of the same queue and identifier (C02's clause). The flush after a write is reached only over the written + count >= len edge; every direct transport write of an operation is preceded by a drain (C01's rule; its known finding on disconnect_with is listed here as well).",
             "DESIGN.md §4 C13"),
     "C14": ("sibling agreement of the size predicates + must-pass (path-sensitive where needed) of size checks before "
             "every write/enqueue + wiring of the advertised and the broker limit",
@@ -108,7 +108,7 @@ CLAIMED = {
             "encoded_len vs the varint boundaries for every bit-length class; CONNECT flags, subscription options and "
             "PUBLISH flags bit by bit with their guards; CONNECT field wiring and the field order of all packet "
             "serializers; checked u16 length prefixes. This covers all property kinds x packets without enumerating "
-            "values. Byte-level round trips and user payload closures are not decided. The publication builder keeps a correlation entry whatever user properties are installed before or after it (C20's clauses).",
+            "values. Byte-level round trips and user payload closures are not decided. Properties::size adds up encoded sizes, never element counts. The publication builder keeps a correlation entry whatever user properties are installed before or after it (C20's clauses).",
             "DESIGN.md §4 C09"),
     "C10": ("who-may-write + dependence (fields read by the ping-due test) + dominance/post-dominance + decision-table "
             "extraction (truth table of the due test over the Option states) + interval abstract interpretation of the "
@@ -125,7 +125,7 @@ CLAIMED = {
             "PARTIAL: static analysis decides only that partial-I/O counts are what advances state: commit(count of this "
             "read), read_bytes += count, window from read_bytes, bounded look-ahead while the length is unknown, "
             "bytes[written..] resume, cursor advance by the accepted count, zero-length I/O handling, take buffer[..len]. "
-            "Equality of whole runs under different chunkings is a relation between executions and is NOT decided. Every queued entry restarts from byte 0 on a new transport (C01's clause): an offset counted on one transport never selects the bytes sent on the next.",
+            "Equality of whole runs under different chunkings is a relation between executions and is NOT decided. Every queued entry restarts from byte 0 on a new transport (C01's clause): an offset counted on one transport never selects the bytes sent on the next. The drive loop reports Idle / Advanced only when no outbound step remains; the step/setter clauses of C13.",
             "DESIGN.md §4 C15"),
     "C17": ("who-may-write / who-may-borrow-mutably census of the arena + dominance (compact before every view) + wiring",
             "Static analysis, structural clauses only: every mutable arena view is buf[used..] after a dominating compact; "
@@ -146,14 +146,14 @@ CLAIMED = {
             "Static analysis, structural clauses only: is_valid_for table vs MQTT 5 (must-accept / must-reject / don't-care); "
             "value predicates as intervals; valid_for covers everything serialize emits; validation with the right context "
             "dominates allocation, encode, enqueue, quota and writes; empty lists refused first; downgraded QoS used "
-            "everywhere; DISCONNECT scratch (known finding). All 27 kinds x 5 contexts are decided as table cells. Tearing the handle down counts among the traces a refused request must not leave. Every exit that reports a fatal error has passed the latch the operations' live gate tests (C11's clauses); Maximum QoS is stored by every successful handshake.",
+            "everywhere; DISCONNECT scratch (known finding). All 27 kinds x 5 contexts are decided as table cells. Tearing the handle down counts among the traces a refused request must not leave. Every exit that reports a fatal error has passed the latch the operations' live gate tests (C11's clauses); Maximum QoS is stored by every successful handshake. Every operation tests the latch first (C11's entry rule).",
             "DESIGN.md §4 C19"),
     "C20": ("wiring chain (expression reconstruction) from inbound property lookup to the reply publication + "
             "fallible-conversion census",
             "Static analysis, structural clauses only: each link of the chain response_topic/correlation_data -> "
             "response_target -> publication -> correlate/with_correlation -> with_properties keeps exactly the requester's "
             "topic and correlation data; lookups are independent fresh iterations (position independent); owned copies use "
-            "only fallible conversions mapped to BufferTooSmall. Byte-level encoding is C09. Every property identifier decodes to its own Property variant (nothing else can turn into ResponseTopic / CorrelationData). No return of with_properties bypasses the test for a correlation entry.",
+            "only fallible conversions mapped to BufferTooSmall. Byte-level encoding is C09. Every property identifier decodes to its own Property variant (nothing else can turn into ResponseTopic / CorrelationData). No return of with_properties bypasses the test for a correlation entry. The property iterator advances by exactly what each property occupied; a correlated block's declared size is the sum of encoded sizes (C09's rule).",
             "DESIGN.md §4 C20"),
     "C08": ("panic-site enumeration over the inbound call graph (MIR Assert terminators + panicking callees) with "
             "guard-dominance re-verification; decode-table extraction vs MQTT 5; shape analysis of the varint reader; "
